@@ -192,6 +192,7 @@ type env struct {
 }
 
 type resolved struct {
+	rangeEnd string
 	commit  bool
 	regions map[uint64]bool
 	primary []byte
@@ -747,6 +748,7 @@ func (e *env) describeResolve(commit bool) string {
 		regions = "-"
 	}
 	e.resolved = res
+	res.rangeEnd = re
 	out := fmt.Sprintf("ok range %s %s regions %s", rs, re, regions)
 	if commit {
 		if len(cks) != 1 {
@@ -883,6 +885,10 @@ func (e *env) chkCovered() string {
 	hs := make([]string, len(bad))
 	for i, b := range bad {
 		hs[i] = vx.Hex(b)
+	}
+	if len(hs) == 1 && hs[0] == e.resolved.rangeEnd {
+		// the one failure the range logic is suspected of (DESIGN S7): exactly the range end key is left out
+		return "FAIL unresolved-range-end " + hs[0]
 	}
 	return "FAIL unresolved " + strings.Join(hs, ",")
 }
